@@ -742,6 +742,11 @@ class FormSum(BaseForm):
 
     def __init__(self, *components):
         """Initialise."""
+        if getattr(self, "ufl_operands", None) is not None:
+            # `FormSum.__new__` simplified FormSum((a, 1)) to `a`, which
+            # is an existing, already initialised FormSum: Python calls
+            # `__init__` on it again and its weights must be kept.
+            return
         BaseForm.__init__(self)
 
         # Remove `ZeroBaseForm` components
